@@ -17,7 +17,7 @@ import (
 
 const c07Foreign = "Emoji"
 
-var c07Entries = []string{"registry", "json-top", "json-item", "json-list", "json-list-after-unknown", "gob-top", "gob-nested", "json-typeonly", "gob-top-typeonly", "gob-nested-typeonly"}
+var c07Entries = []string{"registry", "json-top", "json-item", "json-list", "json-list-after-unknown", "json-list-after-untyped", "gob-top", "gob-nested", "json-typeonly", "gob-top-typeonly", "gob-nested-typeonly"}
 
 // marker properties written into the document / value for one vocabulary name
 type c07Markers struct {
@@ -279,6 +279,30 @@ func c07Produce(entry, name string, ti vocab.TypeInfo, known bool) (it ap.Item, 
 			}
 		}
 		return nil, nil
+	case "json-list-after-untyped":
+		// the same list position, behind an untyped sibling that says the same things under the same id (an earlier rendering of the
+		// same thing by a server that wrote no type): the typed member is a different value and must arrive as it would alone
+		if name == "" {
+			return c07Produce("json-list", name, ti, known)
+		}
+		sibling := map[string]interface{}{"id": doc["id"]}
+		for _, k := range []string{"summary", "name"} {
+			if v, ok := doc[k]; ok {
+				sibling[k] = v
+			}
+		}
+		b, _ := json.Marshal(map[string]interface{}{"id": "https://example.com/outer", "type": "Note", "tag": []interface{}{sibling, doc}})
+		outer, err := ap.UnmarshalJSON(b)
+		if err != nil || outer == nil {
+			return nil, fmt.Errorf("outer document: %v", err)
+		}
+		want := ap.IRI(doc["id"].(string))
+		for _, m := range outer.(*ap.Object).Tag {
+			if !ap.IsNil(m) && m.GetLink() == want && m.GetType() != "" {
+				return m, nil
+			}
+		}
+		return nil, nil
 	case "json-typeonly", "gob-top-typeonly", "gob-nested-typeonly":
 		// a value that says nothing but its type ({"type":"Travel"}): the type alone must carry it through both codecs
 		p := reflect.New(vocab.StructType(ti.GoType))
@@ -489,7 +513,7 @@ func TestC07(t *testing.T) {
 							r.Report("cells", cell, key+" foreign-wrong-type", fmt.Sprintf("%s: a name outside the vocabulary produced %T", cell, it), cell)
 						}
 					}
-				} else if entry != "registry" && entry != "json-list" && entry != "json-list-after-unknown" && entry != "json-item" && entry != "json-top" {
+				} else if entry != "registry" && entry != "json-list" && entry != "json-list-after-unknown" && entry != "json-list-after-untyped" && entry != "json-item" && entry != "json-top" {
 					_ = it
 				} else if err != nil || vocab.GoTypeName(it) != "Place" {
 					r.Report("cells", cell, key+" hook-ignored", fmt.Sprintf("%s: the installed hooks handle this name, got %T err=%v", cell, it, err), cell)
